@@ -179,6 +179,40 @@ theorem harmless_outcomes_do_not_abort (c : Circ) (fuel : Nat) (s : St) (d : Nat
   · rw [unknown_event_is_harmless c fuel s d b et data hb ht ha hi hn h]
   · rw [parameter_error_is_harmless c fuel s d b et data h hb ht ha hi hn hl hp]
 
+/-! ### fuel_suffices -/
+
+/-- The nesting depth of `event()` calls is bounded by the circuit: with `phi s` = number of blocks
+    that are not inside `event()` + number of blocks whose early initialisation is still pending,
+    `phi s + 1` units of fuel are never used up (every nested call lowers `phi`). -/
+theorem fuel_suffices_general (c : Circ) (fuel : Nat) (s : St) (d : Nat) (et : EType) (data : Data)
+    (h : phi c.n s < fuel) : (deliver c fuel s d et data).2 ≠ .exc .outOfFuel :=
+  deliver_G c fuel s d et data h
+
+/-- `phi` is at most twice the number of blocks (a handler frame and an early-initialisation frame
+    per block) … -/
+theorem depth_le_blocks (c : Circ) (s : St) : phi c.n s ≤ 2 * c.n := phi_le c.n s
+
+/-- … hence the fuel the model runs with (`2 * blocks + 1`) suffices in every state: the artefact
+    `outOfFuel` never occurs, `deliver` is the real recursion -/
+theorem fuel_suffices (c : Circ) (s : St) (d : Nat) (et : EType) (data : Data) :
+    (deliver c c.fuel s d et data).2 ≠ .exc .outOfFuel :=
+  deliver_fuel c s d et data
+
+/-- also for the start-up loop -/
+theorem fuel_suffices_init (c : Circ) (s : St) (ds : List Nat) :
+    (initLoop c s ds).2 ≠ .exc .outOfFuel := by
+  induction ds generalizing s with
+  | nil => simp [initLoop]
+  | cons d ds ih =>
+    unfold initLoop
+    split
+    · simp
+    · split
+      · refine andThen_G ?_ (ih _)
+        exact initBlock_G (kclosed_phi c.n c.fuel) (deliver_frm c _) (deliver_G c _) _ _ _
+          (by unfold Circ.fuel; have := phi_le c.n { s with init := upd s.init d .running }; omega)
+      · exact ih s
+
 /-! ### tie to the source -/
 
 /-- the handler tables read from the code are the ones the model classifies parameter errors by -/
